@@ -15,7 +15,7 @@ ENGINE = 'cv-fault'
 BUDGET_S = {'quick': 170, 'thorough': 1500}
 CASE_TIMEOUT_S = 600
 STUBS = ['pathos ParallelPool -> SimPool', 'cli.common.signal -> FakeSignal (never fires in this engine)']
-PROBES = ['corpus_case', 'fault_entry', 'fault_mid_unit', 'fault_gather', 'multi_fault', 'all_units_of_tx', 'every_unit',
+PROBES = ['corpus_case', 'step_cap_discarded', 'fault_entry', 'fault_mid_unit', 'fault_gather', 'multi_fault', 'all_units_of_tx', 'every_unit',
           'threads_gt_1', 'fusion_unit_failed', 'circ_unit_failed', 'main_unit_failed', 'absorbed',
           'abort_checked', 'later_unit_after_failed_unit', 'parser_rows_case']
 RULE = ('case = generated reference + records (mix biased to fusions/circRNAs so transcripts have several units); '
@@ -101,11 +101,14 @@ def plan_faults(rng, units, gathered):
     return faults, tag
 
 
+UNIT_LINE_CAP = 25_000_000
+
+
 def execute(case, wd, tag, threads, sched, skip_failed, faults=None, skip_units=None, count_units=False):
     ref, files, out = cvcase.materialise(case, cvcase.reference_layout(case), wd, tag)
     cfg = dict(case['config'], threads=threads, skip_failed=skip_failed)
     return cvrun.run_callvariant(ref, files, out, cfg, sched, faults=faults, skip_units=skip_units,
-                                 count_units=count_units)
+                                 count_units=count_units, line_cap=UNIT_LINE_CAP if count_units else None)
 
 
 def entries_by_seq(run):
@@ -119,6 +122,8 @@ def backbone(entry):
 def judge(case, f0, a, b, a2, faults):
     """Returns list of (clause, signature, detail)."""
     out = []
+    if a.wall_capped or b.wall_capped or (a2 is not None and a2.wall_capped):
+        return [('_model_failed', '', {'exc': 'wall budget'})]
     fired = {f['unit'] for f in a.fault_fired}
     failing_kinds = sorted({u.split('|')[0] for u in fired})
     kinds_tag = '+'.join(failing_kinds)
@@ -224,9 +229,11 @@ def run_case(seed, task, tier):
     with cvcase.Scratch('c07_') as wd:
         f0 = execute(case, wd, 'f0', 1, {'salt': sched['salt']}, False, count_units=True)
         out['executions'] += 1
-        if not f0.ok or not f0.units:
+        if not f0.ok or not f0.units or f0.step_capped or f0.wall_capped:
             out['invalid'] = True
-            out['invalid_reason'] = f0.exc or 'no units'
+            out['invalid_reason'] = 'step cap' if (f0.step_capped or f0.wall_capped) else (f0.exc or 'no units')
+            if f0.step_capped or f0.wall_capped:
+                probes['step_cap_discarded'] = 1
             return out
         out['steps'] += sum(u[3] or 0 for u in f0.units)
         if case['stats'].get('corpus'):
